@@ -20,16 +20,17 @@ CHECKS = {
                      'unrolling).', ref='DESIGN.md §4 C02'),
     'C03': dict(text='History independence: observers of the model are idempotent on the heap they leave (theorems, partial for the full '
                      'frame statement); every generated history is replayed on the implementation with and without its intermediate '
-                     'observations and the final answers compared. Known finding R3.', ref='DESIGN.md §4 C03'),
+                     'observations and the final answers compared. Known finding R3 (attributed by the identity-keyed twin of the model).', ref='DESIGN.md §4 C03'),
     'C04': dict(text='(lead, span) evaluator: span = latest end − earliest start over the node intervals, nested blocks shifted by their '
                      'lead (theorems); implementation (after the R2 repair) compared with the model and with the span recomputed from '
                      'its own reported times on forced and random programs.', ref='DESIGN.md §4 C04'),
     'C05': dict(text='Per-class copy keeps every field and the relation type (theorems, all 26 classes); graph-level faithfulness is '
                      'checked on the implementation at every copy/nesting/unrolling (sequence, positional relation targets, relative '
-                     'schedule, independence under later mutations) and against the model. Known finding R3.', ref='DESIGN.md §4 C05'),
+                     'schedule, independence under later mutations) and against the model. Known findings R3, R24, R14.', ref='DESIGN.md §4 C05'),
     'C06': dict(text='Unrolling: counts reset, idempotence, untouched outside operations, n·T for blocks whose last-ending operation is a '
                      'leaf and the unrolled multiset are checked on the implementation at every apply_modifiers and against the model; '
-                     'the selection of the latest leaf (pickLatest) is proved. Library concatenation clause: known finding R5.',
+                     'the selection of the latest leaf (pickLatest) and n·T for a chain are proved. Library concatenation clause evaluated on the '
+                     'constructors: known finding R5.',
                 ref='DESIGN.md §4 C06'),
     'C07': dict(text='Two-counter acquisition scan: circuit index = position, qubit index = rank, filters and tag partition are theorems '
                      'about the scan the driver executes; the implementation\'s indices and filter getters are compared with the model '
@@ -47,8 +48,8 @@ CHECKS = {
                      'library heaps (partial: ≤ 110 objects, as constructed); constructors × random duration settings on the '
                      'implementation and through the recorder + model.', ref='DESIGN.md §4 C10'),
     'C11': dict(text='Flatten: leaf multiset, no remaining sub-circuit and idempotence are checked on the implementation at every flatten '
-                     'of implicitly sequenced programs and against the model; listing permutation lemmas shared with C02. Known findings '
-                     'R14 (cycle after unroll+flatten), R5 (library clause).', ref='DESIGN.md §4 C11'),
+                     'of implicitly sequenced programs and against the model; flatten_listing_perm / flatten_no_composite are theorems; library '
+                     'clause evaluated on the constructors incl. the multi-round one. Known findings R14, R5, R25, R3.', ref='DESIGN.md §4 C11'),
     'C12': dict(text='Index kernels: contiguity, disjointness, tiling, category cover, translation by the cycle length and the estimate '
                      'inverse proved for every rounds list / heralded / calibration flag / repetitions; exhaustive correspondence over all '
                      'lists of ≤ 4 distinct rounds in {0..5}.', ref='DESIGN.md §4 C12'),
